@@ -80,6 +80,7 @@ class Endpoint:
         self.f = fakesock.FakeConn(tls=self.tls)
         self.q = 0
         self.pin = 0
+        self.alt = 0          # alternates between equivalent entry points of the endpoint
         if kind == "client":
             self.ep = clienting.Client(tymth=self.tymist.tymen(), wl=self.wl)
             self.ep.cs, self.ep.opened, self.ep.accepted = self.f, True, True
@@ -106,11 +107,22 @@ class Endpoint:
                     self.pin += a[0]
                 elif op == "send":
                     self.f.sendplan = [plan_of(a, self.tls)]
-                    self.ep.serviceSends()
+                    self.alt += 1
+                    if self.kind.startswith("client") and self.ep.connected and self.alt % 2:
+                        # the same through the client's whole service entry point, with nothing to read
+                        self.f.script_recv(0, 1, "block")
+                        self.ep.service()
+                        self.f.budget = None
+                    else:
+                        self.ep.serviceSends()
                     self.f.sendplan = []
                 elif op == "recv":
                     self.f.script_recv(a[0], a[1], plan_of(a[2], self.tls))
-                    self.ep.serviceReceives()
+                    self.alt += 1
+                    if self.alt % 2 and (a[0] == 0 or (a[0] <= a[1] and a[2][0] == "block")):
+                        self.ep.serviceReceiveOnce()       # one recv() call does it: the single-shot entry point
+                    else:
+                        self.ep.serviceReceives()
                     self.f.budget = None
                 elif op == "handshake":
                     self.f.hsplan = [plan_of(a, True)]
